@@ -319,6 +319,13 @@ package fzf
 //@ func Chars.ToString trusted
 //@ package github.com/junegunn/fzf/src
 
+// StripLastDelimiter removes the trailing delimiter and trailing white space of a field: what is left is a
+// prefix of the field (its first character stays where it was, so character offsets computed for the field
+// remain valid).
+//@ func StripLastDelimiter
+//@ property C10
+//@ ensures result.arr == str.arr && result.off == str.off && len(result) <= len(str)
+
 //@ func JoinTokens
 //@ property C10
 //@ requires forall(k, 0, len(tokens), tokens[k].text != nil)
